@@ -56,6 +56,9 @@ pub fn gen_history(rng: &mut Rng) -> (CtxSpec, Vec<String>) {
         "xs + ys", "xs + [n]", "ys + xs + xs", "s + t", "s + 'x' + t", "(xs + [1]) + (xs + [2])", "xs.map(x, x + n)", "xs.filter(x, x > n)", "xs.all(x, x >= 0)", "xs.exists(x, x == n)",
         "zs[0] + xs", "zs + zs", "[xs, ys, xs + ys]", "xs.map(x, xs + [x])", "id(xs) + id(ys)", "id(s) + s", "size(xs + ys) == size(xs) + size(ys)", "xs", "ys", "s", "zs[0]", "{'k': xs}.k + xs",
         "m", "xs.map(x, s + string(x))", "xs + xs.map(x, x * 2)", "(xs + ys).filter(x, x != n) + xs", "n + 1", "xs == ys", "[s + s, s]", "xs.map(x, ys).map(l, l + [n])",
+        // has() on freshly built, short-lived maps with different keys (a memo keyed by address or
+        // by expression id outlives the map it describes)
+        "has({'alpha': 1}.alpha)", "has({'beta': 1}.alpha)", "has({'alpha': n, 'beta': n}.beta)", "has({'k': xs}.alpha) || has({'alpha': xs}.alpha)", "[{'a': 1}, {'b': 1}].map(e, has(e.a))",
         // selection chains on one root variable, several per history
         "req.auth.uid", "req.auth.role", "req.meta.ip.v", "req.auth.uid + req.auth.role", "has(req.auth.role) ? req.auth.role : req.auth.uid", "[req.auth.role, req.meta.ip.v]",
         // map literals with numerically equal keys of different kinds, indexed every way (a lookup
